@@ -77,7 +77,8 @@ func (P *Prog) classify(fn *ssa.Function, fi *fnInfo) {
 		}
 	}
 	for _, n := range P.cfg.Nop {
-		if strings.HasPrefix(pkgPath, n) {
+		// also promoted-method wrappers whose receiver type lives in a skipped package
+		if strings.HasPrefix(pkgPath, n) || strings.HasPrefix(name, "("+n) || strings.HasPrefix(name, "(*"+n) {
 			fi.nop = true
 			return
 		}
